@@ -4,7 +4,11 @@
      i <k> <v> | r <k> <v> <leafbit> | ra <k> <rev> <nf> <nb> | g <k> <rev> <nf> <nb>
      rg <lo> <hi> <rev> <nf> <nb> | len | emp | commit | abort | reopen | rdump | rep <k>
    keys/values: b:<hex> (byte string, "-" = empty) or u:<hex> (integer); bounds: u | i/<kv> | e/<kv>
-   argv: <spec_out> <model_out> <model_rep>   one line per input line in each file. *)
+   argv: <spec_out> <model_out> <model_rep> <tl_out> <tl_rep>   one line per input line in each file.
+   tl_* = the extracted TWO-LEVEL model (coq/Multimap/Subtree.v over C04's shape trees, SubtreeInst.v): its outputs, and
+   per touched key "I|S <count> L|B <root leaf bytes>" (MultimapTable::verif_collection_info); at every commit / abort the
+   replayed state is run through C04's verified checker (kv_tl_check), "INV!" instead of "ok" if it fails.
+   stdout: one summary line with measured markers of the two-level replay. *)
 open C09_model
 
 let rec pos_of_bits = function
@@ -71,26 +75,51 @@ let out_s = function
 let rep_s = function
   | None -> "absent"
   | Some (sub, n) -> Printf.sprintf "%s %s" (if sub then "S" else "I") (hex_of_n n)
+let rep2_s = function
+  | None -> "absent"
+  | Some (((sub, n), leaf), len) ->
+    Printf.sprintf "%s %s %s %s" (if sub then "S" else "I") (hex_of_n n) (if leaf then "L" else "B") (hex_of_n len)
+let rec int_of_nat = function O -> 0 | S m -> 1 + int_of_nat m
 
 let () =
   let spec_oc = open_out Sys.argv.(1) and model_oc = open_out Sys.argv.(2) and rep_oc = open_out Sys.argv.(3) in
-  let spec = ref s_empty and model = ref m_empty in
+  let tlo_oc = open_out Sys.argv.(4) and tlr_oc = open_out Sys.argv.(5) in
+  let spec = ref s_empty and model = ref m_empty and tl = ref kv_tl_empty in
   let cfg = ref { page_size = n_of_int 4096; vwidth = None } in
+  (* parameters of the two-level instance: page size, K fixed width?, K separator mode, V fixed width?, V separator mode *)
+  let ps = ref (n_of_int 4096) and kfixed = ref false and kmode = ref (n_of_int 1) and vfixed = ref false and vmode = ref (n_of_int 1) in
+  let max_height = ref 0 and branch_reps = ref 0 and sub_reps = ref 0 and checks = ref 0 and tl_steps = ref 0 in
+  let emit2 d e = output_string tlo_oc (d ^ "\n"); output_string tlr_oc (e ^ "\n") in
   let emit a b c = output_string spec_oc (a ^ "\n"); output_string model_oc (b ^ "\n"); output_string rep_oc (c ^ "\n") in
-  let step ?(key = None) o =
+  let emit5 a b c d e = emit a b c; emit2 d e in
+  let tl_rep k =
+    let r = kv_tl_rep !ps !kfixed !kmode !vfixed !vmode k !tl in
+    (match r with
+     | Some (((true, _), leaf), _) ->
+       incr sub_reps; if not leaf then incr branch_reps;
+       (match kv_sub_height k !tl with Some h -> let h = int_of_nat h in if h > !max_height then max_height := h | None -> ())
+     | _ -> ());
+    rep2_s r in
+  let step ?(key = None) ?(check = false) o =
     let (s', so) = spec_step kv_cmp kv_cmp o !spec in
     let (m', mo) = model_step kv_cmp kv_cmp kv_len !cfg o !model in
-    spec := s'; model := m';
+    let (t', tout) = kv_tl_step !ps !kfixed !kmode !vfixed !vmode o !tl in
+    spec := s'; model := m'; tl := t'; incr tl_steps;
     let rep = match key with None -> "-" | Some k -> rep_s (rep_of kv_cmp k m'.m_cur) in
-    emit (out_s so) (out_s mo) rep in
+    emit (out_s so) (out_s mo) rep;
+    let touts = if check then (incr checks; if kv_tl_check t' then out_s tout else "INV!") else out_s tout in
+    emit2 touts (match key with None -> "-" | Some k -> tl_rep k) in
   (try
     while true do
       let line = input_line stdin in
       match String.split_on_char ' ' line with
-      | ["P"; _; _; vt; ps] ->
-        spec := s_empty; model := m_empty;
-        cfg := { page_size = n_of_int (int_of_string ps); vwidth = (if vt = "u" then Some (n_of_int 8) else None) };
-        emit "P" "P" "P"
+      | ["P"; _; kt; vt; psz] ->
+        spec := s_empty; model := m_empty; tl := kv_tl_empty;
+        cfg := { page_size = n_of_int (int_of_string psz); vwidth = (if vt = "u" then Some (n_of_int 8) else None) };
+        ps := n_of_int (int_of_string psz);
+        kfixed := (kt = "u"); kmode := n_of_int (if kt = "u" then 0 else if kt = "s" then 2 else 1);
+        vfixed := (vt = "u"); vmode := n_of_int (if vt = "u" then 0 else if vt = "s" then 2 else 1);
+        emit5 "P" "P" "P" "P" "P"
       | ["i"; k; v] -> let k = kv_of_string k in step ~key:(Some k) (OpInsert (k, kv_of_string v))
       | ["r"; k; v; leaf] -> let k = kv_of_string k in step ~key:(Some k) (OpRemove (k, kv_of_string v, bool_of leaf))
       | ["ra"; k; rev; nf; nb] ->
@@ -101,18 +130,20 @@ let () =
         step (OpRange (bound_of_string lo, bound_of_string hi, bool_of rev, n_of_int (int_of_string nf), n_of_int (int_of_string nb)))
       | ["len"] -> step OpLen
       | ["emp"] -> step OpIsEmpty
-      | ["commit"] -> step OpCommit
-      | ["abort"] -> step OpAbort
-      | ["reopen"] -> emit "ok" "ok" "-"
-      | ["integrity"] -> emit "Ok(true)" "Ok(true)" "-"
-      | ["rep"; k] -> let k = kv_of_string k in emit "-" "-" (rep_s (rep_of kv_cmp k !model.m_cur))
+      | ["commit"] -> step ~check:true OpCommit
+      | ["abort"] -> step ~check:true OpAbort
+      | ["reopen"] -> emit5 "ok" "ok" "-" "ok" "-"
+      | ["integrity"] -> emit5 "Ok(true)" "Ok(true)" "-" "Ok(true)" "-"
+      | ["rep"; k] -> let k = kv_of_string k in emit5 "-" "-" (rep_s (rep_of kv_cmp k !model.m_cur)) "-" (tl_rep k)
       | ["rdump"] ->
         (* contents and len of the COMMITTED state, as a read transaction sees them *)
         let d (m : (kv, kv) smap) =
           let l = List.map (fun (k, vs) -> (k, (vs, nlen vs))) m in
           Printf.sprintf "len=%s {%s}" (hex_of_n (s_len m)) (String.concat " " (List.map entry_s l)) in
-        emit (d !spec.s_committed) (d (abs_state !model).s_committed) "-"
-      | _ -> emit "BADLINE" "BADLINE" "BADLINE"
+        emit5 (d !spec.s_committed) (d (abs_state !model).s_committed) "-" (d (kv_tl_abs !tl).s_committed) "-"
+      | _ -> emit5 "BADLINE" "BADLINE" "BADLINE" "BADLINE" "BADLINE"
     done
   with End_of_file -> ());
-  close_out spec_oc; close_out model_oc; close_out rep_oc
+  Printf.printf "{\"tl_steps\":%d,\"tl_subtree_reps\":%d,\"tl_branch_root_reps\":%d,\"tl_max_subtree_height\":%d,\"tl_checker_runs\":%d}\n"
+    !tl_steps !sub_reps !branch_reps !max_height !checks;
+  close_out spec_oc; close_out model_oc; close_out rep_oc; close_out tlo_oc; close_out tlr_oc
